@@ -245,4 +245,21 @@ ELEMENTS — to the subject itself, so `c` is inferred `Never` although the case
 by `as` over a sequence / mapping pattern; `constrainingSub`: that pattern contains such a sub-pattern. -/
 def D01_matchAsNested (asOverSeq constrainingSub : Bool) : Bool := asOverSeq && constrainingSub
 
+/-- class `compositeUnionRoot`: the failing read is a subscript composite `t[k]` (literal key) whose root variable holds
+a UNION of containers (`tuple[Optional[int]] | list[Optional[str]]`), below / after a test that narrows that composite.
+`composite_from_subscript` looks the composite up once per union member, each time with that member's element type
+as fallback value, but `FunctionScope._resolve_value` caches the resolved constrained value under a key that leaves the
+fallback value out: the first member's narrowed element type is returned for every member.
+`unionRoot`: the root's declared / assigned value is a union of at least two subscriptable members;
+`narrowedByTest`: a test on that very composite governs or precedes the read. -/
+def D01_compositeUnionRoot (unionRoot narrowedByTest : Bool) : Bool := unionRoot && narrowedByTest
+
+/-- class `implicitNoneReturn`: the failing evaluation is a call of a module-level function WITHOUT return annotation
+in which some `return` has a value and some path falls off the end (a bare `return` is fine: it is
+recorded as None): `_compute_return_type` unites the values of the `return` statements only; the implicit `None` of
+the paths that fall through is not added (`has_return` is only used for the missing-return diagnostic of annotated
+functions). `unannotated`: the callee has no return annotation; `mayFallOff`: some path through its body ends without
+`return` / `raise`. -/
+def D01_implicitNoneReturn (unannotated mayFallOff : Bool) : Bool := unannotated && mayFallOff
+
 end Pya.C01
